@@ -78,20 +78,16 @@ CHECKS.update({
     ),
     "C13": dict(
         engine="KeepAlive", category="model_checking",
-        text=("KeepAlive.tla models the ticker loop of startKeepalive with an explicit clock and an environment-chosen ping outcome script; TLC checks Accuracy/Completeness/"
-              "Timing/SilentStop/NoLeftovers exhaustively for all 5461 scripts over {answered, timed-out, method-not-found, connection-error} up to length 6 x thresholds x owner "
-              "closing idle / with a ping in flight / while a request handler keeps Close waiting 1-2 intervals (session levels; 504k states) and exports all 87 376 cases; ping "
-              "attempts are observed by a sending middleware. Every behaviour runs on the real code under synctest at the function level, and every "
-              "distinct run on a real ServerSession and a real legacy ClientSession against a scripted peer; the TLA+ monitor KeepAliveMon judges the virtual-time observations."),
+        text=('KeepAlive.tla models the ticker loop of startKeepalive with an explicit clock, an environment-chosen ping outcome script, the instant at which the peer completes the handshake (keep-alive starts in Connect, before it) and the fate of the context given to Connect (kept / cancelled after tick k); TLC checks Accuracy/Completeness (including sustained pinging while keep-alive is in force)/Timing/SilentStop/NoLeftovers exhaustively for all 5461 scripts over {answered, timed-out, method-not-found, connection-error} up to length 6 x thresholds x owner closing idle / with a ping in flight / while a handler keeps Close waiting, and for scripts up to length 4 x handshake after tick 1..4 or never x Connect context cancelled after tick 0..4 (788k states), and exports all 138 312 cases; ping attempts are observed by a sending middleware. Every behaviour runs on the real code under synctest (function level, real ServerSession, real legacy ClientSession against a scripted peer); the TLA+ monitor KeepAliveMon judges the virtual-time observations.'),
         design_ref="DESIGN.md section 6 C13",
-        note="Trusted: TLC; testing/synctest virtual time; the scripted peer/Connection; the goroutine-dump census (and the goroutine-count heuristic deciding when to take it); script length <= 6.",
+        note="Trusted: TLC; testing/synctest virtual time; the scripted peer/Connection; the goroutine-dump census (and the goroutine-count heuristic deciding when to take it); script length <= 6. The real-time watchdog and process restart of the harness (a go1.25.0 synctest bubble can, rarely, spin inside the runtime); script length <= 4 for the handshake and context dimensions.",
         technique="TLA+ spec + TLC exhaustive; exhaustive replay of TLC-generated cases into real code with quiescence/leak check; TLA+ monitor",
     ),
     "C15": dict(
         engine="OAuthFlow", category="model_checking",
-        text=("OAuthFlow.tla models AuthorizationCodeHandler.Authorize step by step (challenge, 3 PRM locations, root-AS fallback, 5 AS-metadata locations, predefined endpoints, "
+        text=("OAuthFlow.tla models AuthorizationCodeHandler.Authorize step by step (challenge, 3 PRM locations, root-AS fallback, 5 AS-metadata locations, predefined endpoints (the outcomes at the AS-metadata locations are independent: after a fatal outcome the later locations are scripted too, and the predefined-endpoint fallback is allowed only if no document served by that server fails the issuer/PKCE/script checks - NoFallbackAfterRejected; a witness configuration in which discovery goes on after a rejection must violate it), "
               "CIMD/pre-registered/DCR registration, state and RFC 9207 checks, exchange, install) with the environment choosing the document or HTTP outcome at every fetch; TLC "
-              "checks the seven C15 invariants exhaustively (94k states) and dumps the state graph. Issuer identifiers (metadata issuer, PreregisteredClient.Issuer, RFC 9207 iss) range over "
+              "checks the eight C15 invariants exhaustively (95k states) and dumps the state graph. Issuer identifiers (metadata issuer, PreregisteredClient.Issuer, RFC 9207 iss) range over "
               "relation classes: exact/slash, near misses (port, scheme, userinfo, query, fragment, host suffix, extra path segment, strict path prefix, unrelated) which are mismatches, and "
               "case/trailing-dot variants which are not judged except for iss; the harness concretises each class and re-derives it from the concrete strings. A cover of every labelled edge plus seeded behaviours (quick), and every terminal "
               "behaviour of a reduced configuration plus 120k samples (thorough), are replayed on the real Authorize through a fake RoundTripper and scripted code fetcher; every "
@@ -145,13 +141,9 @@ CHECKS.update({
 CHECKS.update({
     "C09": dict(
         engine="StreamCli", category="model_checking",
-        text=("StreamCli.tla states C09 over observations (ExactlyOnceInOrder, ResumeCursor, RealResponseWithinBudget, CleanFailure, NoTruncatedSurfaced) and models handleSSE/"
-              "processStream/connectSSE/scanEvents per body and per reconnect attempt. TLC proves the invariants exhaustively for the repaired design and exports every single-cut "
-              "and two-cut behaviour and a three-cut family of the as-is model. These behaviours, plus EVERY byte offset of reference SSE bodies x {read error, clean EOF} (session "
-              "level and scanEvents alone), are executed on a real Client/StreamableClientTransport with a scripted RoundTripper under synctest; the TLA+ monitor StreamCliMon judges "
-              "each observation."),
+        text=('StreamCli.tla states C09 over observations (ExactlyOnceInOrder, ResumeCursor, RealResponseWithinBudget, CleanFailure, BoundedRetries, NoTruncatedSurfaced) and models handleSSE/processStream/connectSSE/scanEvents per body and per reconnect attempt; reconnect answers are values (200, transport error, each of the transient statuses 429/500/502/503/504, non-transient 404/403/501) and the server may be stuck (every resumption 200 with a body that ends at offset 0, for ever). TLC proves the invariants and termination exhaustively for the repaired design (also against the stuck server and over the whole status class) and exports every single-cut and two-cut behaviour, a three-cut family, interleaved progress scripts, runs of 1..MaxRetries+1 empty resumed bodies (MaxRetries 1-3) with a recovering and with a stuck server, and every answer sequence over the status class. These behaviours, plus EVERY byte offset of reference SSE bodies x {read error, clean EOF}, are executed on a real Client/StreamableClientTransport with a scripted RoundTripper under synctest; the TLA+ monitor StreamCliMon judges each observation.'),
         design_ref="DESIGN.md section 6 C09, 5.5",
-        note="Trusted: TLC; the scripted server's resume semantics; the harness' byte-to-class classifier (cross-checked by zero drift); the conservative reading of the retry budget; synctest quiescence.",
+        note="Trusted: TLC; the scripted server's resume semantics; the harness' byte-to-class classifier (cross-checked by zero drift); the conservative reading of the retry budget; synctest quiescence. A hang = call pending after one virtual hour of a stuck server; BoundedRetries counts fruitless bodies leniently (a content-complete event at a clean EOF may count as progress).",
         technique="TLA+ spec + TLC exhaustive design check; TLC-generated fault scripts and a complete byte-offset enumeration replayed on the real client under virtual time; TLA+ monitor",
     ),
     "C19": dict(
